@@ -14,13 +14,19 @@ def run(cx):
     cc.check_recv_protocol(cx, "C05.R2", "varlink")
 
 
-def r1(cx):
+def r1(cx, rule="C05.R1"):
     body = cx.mir.one("varlink", "<Call<'_> as CallTrait>::reply_struct")
     cx.saw(body)
     cfg = Cfg(body); du = DefUse(body)
     site = body.sp
-    writes = [t for t in body.calls("=write_all", "=write", "=flush", "=to_string", "=to_writer", "=to_vec")]
-    wa = [t for t in body.calls("=write_all", "=write")]
+    # helper functions of the library that write to Call.writer count as write points
+    from .C04 import call_writer_writes
+    writer_fns = set()
+    for b in cx.mir.bodies("varlink"):
+        if b.promoted is None and b.path != body.path and call_writer_writes(b, DefUse(b))[0]: writer_fns.add(b.path)
+    helper_calls = [t for t in body.calls() if not t.callee.indirect and (t.callee.resolved in writer_fns or t.callee.path in writer_fns)]
+    writes = [t for t in body.calls("=write_all", "=write", "=flush", "=to_string", "=to_writer", "=to_vec")] + helper_calls
+    wa = [t for t in body.calls("=write_all", "=write")] + helper_calls
     if not wa: raise AnchorMissing("reply_struct: no write")
     # switches on self.continues and on wants_more()
     csw = []; wsw = []
@@ -31,7 +37,7 @@ def r1(cx):
         if c.kind == "call" and c.term.callee.name == "wants_more": wsw.append((b.term, c))
     # self.continues is not modified inside reply_struct (so both reads agree)
     mods = [s for s in body.stmts() if s.kind == "assign" and s.lhs.l == 1 and "continues" in s.lhs.fields()]
-    cx.check(len(csw) >= 1 and len(wsw) == 1 and not mods, "C05.R1", "varlink:reply_struct:gate-present", site,
+    cx.check(len(csw) >= 1 and len(wsw) == 1 and not mods, rule, "varlink:reply_struct:gate-present", site,
              "reply_struct does not test self.continues and wants_more() (continues tests: %d, wants_more tests: %d, writes to self.continues: %d)" % (len(csw), len(wsw), len(mods)),
              note_ok="%d tests of self.continues, one wants_more() test" % len(csw))
     if not csw or len(wsw) != 1: return
@@ -41,7 +47,7 @@ def r1(cx):
     setc = [s for s in body.stmts() if s.kind == "assign" and s.lhs.l == 2 and s.lhs.fields()[-1:] == ["continues"]]
     limit = []
     paths = enumerate_paths(cfg, 0, lambda blk: blk.idx == wa[0].bb or blk.term.kind == "return", du=du, on_limit=lambda: limit.append(1))
-    if limit: cx.bad("C05.R1", "varlink:reply_struct:path-limit", site, "too many paths")
+    if limit: cx.bad(rule, "varlink:reply_struct:path-limit", site, "too many paths")
     bad = []; nwrite = 0
     for p in paths:
         if p[-1] != wa[0].bb: continue
@@ -53,14 +59,14 @@ def r1(cx):
         if took_true and (wt[0], wt[2]) not in edges: bad.append(("continues set, wants_more()==true edge not taken", p))
         if took_true and not has_set: bad.append(("continues set but the reply is written without continues: true", p))
         if took_false and has_set: bad.append(("continues not set but the reply carries continues: true", p))
-    cx.check(not bad and nwrite >= 2, "C05.R1", "varlink:reply_struct:continues-only-for-more", site,
+    cx.check(not bad and nwrite >= 2, rule, "varlink:reply_struct:continues-only-for-more", site,
              "%d feasible path(s) to the write violate the gate: %s (blocks %s)" % (len(bad), bad[0][0] if bad else "-", bad[0][1][:20] if bad else "-"),
              note_ok="%d feasible paths to the write; continues:true is written iff self.continues and the request asked for more" % nwrite)
     # mismatch returns before anything is serialised or written
     mism = cc.err_variant_blocks(body, "CallContinuesMismatch")
     ser = [t.bb for t in writes]
     good = bool(mism) and all(m in cfg.reach(wf[2]) for m in mism) and not any(x in cfg.reach(wf[2]) for x in ser) and not any(m in cfg.reach(x) for x in ser for m in mism)
-    cx.check(good, "C05.R1", "varlink:reply_struct:mismatch-writes-nothing", site, "CallContinuesMismatch is not returned on the wants_more()==false edge before serialising/writing",
+    cx.check(good, rule, "varlink:reply_struct:mismatch-writes-nothing", site, "CallContinuesMismatch is not returned on the wants_more()==false edge before serialising/writing",
              note_ok="wants_more()==false -> Err(CallContinuesMismatch), nothing serialised")
     # census: Some(true) assigned to a Reply.continues only here; constructors leave it None
     n = 0
@@ -69,18 +75,18 @@ def r1(cx):
         for s in b.stmts():
             if s.kind == "assign" and s.lhs.p and s.lhs.fields()[-1:] == ["continues"] and b.ty_is(s.lhs.l, "Reply"):
                 n += 1
-                cx.check(b.path == body.path, "C05.R1", "varlink:%s:sets-Reply.continues" % b.path, "%s %s" % (s.sp, b.path), "Reply.continues is assigned outside reply_struct's gate", note_ok="the gated assignment")
+                cx.check(b.path == body.path, rule, "varlink:%s:sets-Reply.continues" % b.path, "%s %s" % (s.sp, b.path), "Reply.continues is assigned outside reply_struct's gate", note_ok="the gated assignment")
             if s.kind == "assign" and s.rv == "agg" and isinstance(s.agg, dict) and s.agg.get("adt", "").split("::")[-1] == "Reply" and b.path != body.path:
                 o = s.ops[0] if s.ops else None
                 isnone = o is not None and o.place is not None and any(k == "stmt" and d.rv == "agg" and isinstance(d.agg, dict) and d.agg.get("variant") == "None" for k, d in DefUse(b).defs.get(o.place.l, []))
                 if "Reply::" in b.path:
-                    cx.check(isnone, "C05.R1", "varlink:%s:continues-None" % b.path, "%s %s" % (s.sp, b.path), "constructor builds a Reply with continues already set", note_ok="continues: None")
-    cx.floor("C05.R1", "assignments to Reply.continues in the library", n, 1)
+                    cx.check(isnone, rule, "varlink:%s:continues-None" % b.path, "%s %s" % (s.sp, b.path), "constructor builds a Reply with continues already set", note_ok="continues: None")
+    cx.floor(rule, "assignments to Reply.continues in the library", n, 1)
     # set_continues stores its argument
     sc = cx.mir.one("varlink", "<Call<'_> as CallTrait>::set_continues")
     cx.saw(sc)
     ass = [s for s in sc.stmts() if s.kind == "assign" and s.lhs.l == 1 and s.lhs.fields()[-1:] == ["continues"]]
     calls = [t for t in sc.calls()]
     good = len(ass) == 1 and not calls and ass[0].rv == "use" and ass[0].ops[0].place is not None and [k for k, _ in Slice(sc).origins(ass[0].ops[0])] == ["arg"]
-    cx.check(good, "C05.R1", "varlink:set_continues:stores-argument", sc.sp, "set_continues does not store exactly its argument (the gate in reply_struct would never see the implementation's request)", note_ok="self.continues = cont")
-    r1_flag(cx, rule="C05.R1", only=("wants_more",))
+    cx.check(good, rule, "varlink:set_continues:stores-argument", sc.sp, "set_continues does not store exactly its argument (the gate in reply_struct would never see the implementation's request)", note_ok="self.continues = cont")
+    r1_flag(cx, rule=rule, only=("wants_more",))
